@@ -128,30 +128,34 @@ structure AddResult where
   added : List Nat
 deriving Repr
 
-/-- `Tree.Add`. A batch element counts as "visited" only if it is the very object that got attached: the
-first occurrence of an id that was not attached before (a second copy, or a copy of an already attached
-change, is a different object whose `visited` flag is never set). -/
-def add (t0 : T) (batch : List Change) : AddResult :=
-  let empty := t0.att.isEmpty
+/-- the tree after the first loop of `Tree.Add` and `clearUnattached` (the wait list is kept by the real code) -/
+def addTree (t0 : T) (batch : List Change) : T :=
   let t := addAll { t0 with added := [] } batch
-  let t := { t with unatt := [], wait := t.wait }   -- clearUnattached (waitList is kept by the real code)
+  { t with unatt := [] }
+
+/-- the `dfsNext` check of `Tree.Add`. A batch element counts as "visited" only if it is the very object that
+got attached: the first occurrence of an id that was not attached before (a second copy, or a copy of an
+already attached change, is a different object whose `visited` flag is never set). -/
+def appendOk (t0 t : T) (batch : List Change) : Bool :=
+  let seen := reach (children t.att) (t.att.length + 1) t0.lastIter
+  (List.range batch.length).all (fun i =>
+    match batch[i]? with
+    | none => true
+    | some c =>
+      if !t.has c.id then true
+      else !t0.has c.id && !((batch.take i).any (·.id == c.id)) && seen.contains c.id)
+
+/-- `Tree.Add` -/
+def add (t0 : T) (batch : List Change) : AddResult :=
+  let t := addTree t0 batch
   if t.added.isEmpty then ⟨{ t with added := [] }, .nothing, []⟩
   else
     match t.root with
     | none => ⟨t, .nothing, []⟩
     | some r =>
-      let it := iter r t.att
-      let t' := { t with lastIter := lastOf (headsOf t.att it) r }
-      if empty then ⟨t', .rebuild, t.added⟩
-      else
-        let seen := reach (children t.att) (t.att.length + 1) t0.lastIter
-        let ok := (List.range batch.length).all (fun i =>
-          match batch[i]? with
-          | none => true
-          | some c =>
-            if !t.has c.id then true
-            else !t0.has c.id && !((batch.take i).any (·.id == c.id)) && seen.contains c.id)
-        ⟨t', if ok then .append else .rebuild, t.added⟩
+      let t' := { t with lastIter := lastOf (headsOf t.att (iter r t.att)) r }
+      if t0.att.isEmpty then ⟨t', .rebuild, t.added⟩
+      else ⟨t', if appendOk t0 t batch then .append else .rebuild, t.added⟩
 
 /-! ### reduce (`reduceTree`, `makeRootAndRemove`) -/
 
